@@ -1,4 +1,4 @@
-import RV.C01.LemStore
+import RV.C01.LemIter
 /-
   C01 helper lemmas (entry point).  The lemmas are split over
     LemA      association lists, context-set equality, `getC` / `getT` under the store's updates
